@@ -164,7 +164,7 @@ func (e *compatibilityEngine) NewInstantQuery(q storage.Queryable, opts *promql.
 	exec, err := execution.New(lplan.Expr(), q, ts, ts, 0, e.getLookbackDelta(opts))
 	if e.triggerFallback(err) {
 		e.queries.WithLabelValues("true").Inc()
-		return e.prom.NewInstantQuery(q, opts, qs, ts)
+		return newFallbackQuery(e.prom.NewInstantQuery(q, opts, qs, ts))
 	}
 	e.queries.WithLabelValues("false").Inc()
 	if err != nil {
@@ -201,7 +201,7 @@ func (e *compatibilityEngine) NewRangeQuery(q storage.Queryable, opts *promql.Qu
 	exec, err := execution.New(lplan.Expr(), q, start, end, step, e.getLookbackDelta(opts))
 	if e.triggerFallback(err) {
 		e.queries.WithLabelValues("true").Inc()
-		return e.prom.NewRangeQuery(q, opts, qs, start, end, step)
+		return newFallbackQuery(e.prom.NewRangeQuery(q, opts, qs, start, end, step))
 	}
 	e.queries.WithLabelValues("false").Inc()
 	if err != nil {
@@ -227,6 +227,33 @@ func (e *compatibilityEngine) getLookbackDelta(opts *promql.QueryOpts) time.Dura
 		return opts.LookbackDelta
 	}
 	return e.lookbackDelta
+}
+
+// fallbackQuery is a query evaluated by the Prometheus engine. That engine
+// hands the point slices of a result back to a pool when the query is closed
+// and reuses them for later queries; results of this engine stay valid after
+// Close, so the caller is given its own copy of the points.
+type fallbackQuery struct {
+	promql.Query
+}
+
+func newFallbackQuery(q promql.Query, err error) (promql.Query, error) {
+	if err != nil {
+		return nil, err
+	}
+	return &fallbackQuery{Query: q}, nil
+}
+
+func (q *fallbackQuery) Exec(ctx context.Context) *promql.Result {
+	res := q.Query.Exec(ctx)
+	if matrix, ok := res.Value.(promql.Matrix); ok {
+		owned := make(promql.Matrix, len(matrix))
+		for i, s := range matrix {
+			owned[i] = promql.Series{Metric: s.Metric, Points: append([]promql.Point(nil), s.Points...)}
+		}
+		res.Value = owned
+	}
+	return res
 }
 
 type Query struct {
